@@ -26,13 +26,16 @@ import (
 const SiteEntropy = 0xffffffff
 
 type retained struct {
-	b    []byte
-	what string
-	op   int
-	r    MemRange
+	b         []byte
+	what      string
+	op        int
+	r         MemRange
+	scribbled bool // the caller wrote into it (or, in the dry pass, would have)
+	input     bool // handed back to the library as an input
 }
 
 type taskState struct {
+	extra  []byte // results of the current call that belong in the observation digest
 	id     int
 	curOp  int
 	curOpP *Op
@@ -72,6 +75,8 @@ type Env struct {
 	incon    error
 	heapIn   []MemRange
 	all      []*taskState
+	base     []uint64         // C15: observation digests of the scribble-free execution
+	dry      bool             // C15: scribble steps select their slice but do not write
 	rq       map[int][][]byte // per task: candidate queues of delivered, unused entropy
 	protect0 uint64
 	poisoned bool
@@ -131,10 +136,17 @@ func (x *Env) resolve(ts *taskState, b Bytes) ([]byte, error) {
 		return nil, nil
 	}
 	if b.Ret > 0 {
-		if len(ts.rets) == 0 {
-			return []byte{}, nil
+		// a slice the library returned earlier, never one the caller scribbled on
+		// (the scribble-free reference execution must see the same input)
+		n := len(ts.rets)
+		for k := 0; k < n; k++ {
+			rt := &ts.rets[((b.Ret-1)+k)%n]
+			if !rt.scribbled {
+				rt.input = true
+				return rt.b, nil
+			}
 		}
-		return ts.rets[(b.Ret-1)%len(ts.rets)].b, nil
+		return []byte{}, nil
 	}
 	if b.B < 0 || b.B >= len(x.backs) {
 		return nil, fmt.Errorf("backing %d out of range", b.B)
@@ -277,6 +289,12 @@ func (x *Env) implFor(ts *taskState, oi int, op *Op, bs [][]byte, ea []*secp.Ele
 		var c *secp.Element
 		f = func() error { c = ea[0].Copy(); return nil }
 		post = func() {
+			if !x.strict() {
+				if c != nil && c != ea[0] {
+					ts.E[r] = c
+				}
+				return
+			}
 			// a copy must be a new object: not its source, not any live variable
 			if c == ea[0] {
 				x.fail(ts, oi, op, "M-others", "copy-alias", "Copy returned its receiver instead of a new element")
@@ -328,8 +346,9 @@ func (x *Env) implFor(ts *taskState, oi int, op *Op, bs [][]byte, ea []*secp.Ele
 		var got int
 		f = func() error { got = ts.E[r].Equal(ea[0]); return nil }
 		post = func() {
+			ts.extra = append(ts.extra, byte(got))
 			want := b2i(ts.ME[r].Eq(x.mArgE(ts, op.A[0])))
-			if got != want {
+			if got != want && x.strict() {
 				x.fail(ts, oi, op, "M-ref", "equal", fmt.Sprintf("Equal returned %d, model says %d", got, want))
 			}
 		}
@@ -349,6 +368,12 @@ func (x *Env) implFor(ts *taskState, oi int, op *Op, bs [][]byte, ea []*secp.Ele
 		var c *secp.Scalar
 		f = func() error { c = sa[0].Copy(); return nil }
 		post = func() {
+			if !x.strict() {
+				if c != nil && c != sa[0] {
+					ts.S[r] = c
+				}
+				return
+			}
 			if c == sa[0] {
 				x.fail(ts, oi, op, "M-others", "copy-alias", "Copy returned its receiver instead of a new scalar")
 				return
@@ -395,11 +420,12 @@ func (x *Env) implFor(ts *taskState, oi int, op *Op, bs [][]byte, ea []*secp.Ele
 		var got int
 		f = func() error { got = ts.S[r].Equal(sa[0]); return nil }
 		post = func() {
+			ts.extra = append(ts.extra, byte(got))
 			want := 0
 			if sa[0] != nil {
 				want = b2i(ts.MS[r].Cmp(x.mArgS(ts, op.A[0])) == 0)
 			}
-			if got != want {
+			if got != want && x.strict() {
 				x.fail(ts, oi, op, "M-ref", "equal", fmt.Sprintf("Equal returned %d, model says %d", got, want))
 			}
 		}
@@ -417,6 +443,54 @@ func (x *Env) mArgE(ts *taskState, ref int) model.Point {
 func (x *Env) mArgS(ts *taskState, ref int) *big.Int {
 	_, m, _ := x.sArg(ts, ref)
 	return m
+}
+
+// strict reports whether agreement with the abstract model is a verdict of
+// this run (it is C10's statement only).
+func (x *Env) strict() bool { return x.R.Prop == "C10" }
+
+// argsKeptValue checks that every pointer argument other than the receiver has
+// the value it had before the call (C15: "scalar or element arguments keep
+// their value"). Identical bytes are identical values; otherwise the
+// encodings of the before-image and of the argument are compared, so that a
+// change of representation that keeps the value is not reported.
+func (x *Env) argsKeptValue(ts *taskState, oi int, op *Op, ea []*secp.Element, sa []*secp.Scalar, raw [][]byte) bool {
+	k := 0
+	for _, e := range ea {
+		before := raw[k]
+		k++
+		if e == nil || (IsElemOp(op.K) && e == ts.E[op.R]) {
+			continue
+		}
+		now := unsafe.Slice((*byte)(unsafe.Pointer(e)), elemSize)
+		if bytes.Equal(before, now) {
+			continue
+		}
+		was := (*secp.Element)(unsafe.Pointer(&before[0])).Encode()
+		is := e.Encode()
+		if !bytes.Equal(was, is) {
+			x.fail(ts, oi, op, "M-arg", "element", fmt.Sprintf("element argument changed value during the call: %s before, %s after", hexOf(was), hexOf(is)))
+			return false
+		}
+	}
+	for _, sc := range sa {
+		before := raw[k]
+		k++
+		if sc == nil || (!IsElemOp(op.K) && sc == ts.S[op.R]) {
+			continue
+		}
+		now := unsafe.Slice((*byte)(unsafe.Pointer(sc)), scalSize)
+		if bytes.Equal(before, now) {
+			continue
+		}
+		was := (*secp.Scalar)(unsafe.Pointer(&before[0])).Encode()
+		is := sc.Encode()
+		if !bytes.Equal(was, is) {
+			x.fail(ts, oi, op, "M-arg", "scalar", fmt.Sprintf("scalar argument changed value during the call: %x before, %x after", was, is))
+			return false
+		}
+	}
+	return true
 }
 
 func (x *Env) bad(why string) {
@@ -492,6 +566,24 @@ func (x *Env) step(ts *taskState, oi int, op *Op) {
 		rdStart = len(x.Dev.Log)
 	}
 
+	var argRaw [][]byte
+	if x.R.Prop == "C15" {
+		for _, e := range ea {
+			if e != nil {
+				argRaw = append(argRaw, rawCopy(unsafe.Pointer(e), elemSize))
+			} else {
+				argRaw = append(argRaw, nil)
+			}
+		}
+		for _, sc := range sa {
+			if sc != nil {
+				argRaw = append(argRaw, rawCopy(unsafe.Pointer(sc), scalSize))
+			} else {
+				argRaw = append(argRaw, nil)
+			}
+		}
+	}
+
 	// ---- run the implementation
 	out := x.call(f)
 
@@ -500,7 +592,7 @@ func (x *Env) step(ts *taskState, oi int, op *Op) {
 		x.fail(ts, oi, op, "M-trap", site, d)
 		return
 	}
-	if st, ok := out.pval.(entropy.Stall); ok && out.panicked {
+	if st, ok := out.pval.(entropy.Stall); ok && out.panicked && x.R.Prop == "C18" {
 		x.fail(ts, oi, op, "M-entropy", "stall", fmt.Sprintf("the call kept reading the randomness source through %d consecutive reads that delivered nothing (failed or empty) instead of failing", st.Reads))
 		return
 	}
@@ -514,19 +606,24 @@ func (x *Env) step(ts *taskState, oi int, op *Op) {
 		return
 	}
 
+	// Agreement with the abstract model is C10's statement. The other checks
+	// run the model only to steer generation and to count reach probes; they
+	// judge by their own monitors and never by the model (a tree that breaks
+	// C10 alone must not make C15, C16 or C18 raise an alarm).
+	strict := x.strict()
 	switch {
-	case out.panicked && !mo.panics:
+	case out.panicked && !mo.panics && strict:
 		x.fail(ts, oi, op, "M-ref", "panic", fmt.Sprintf("call panicked (%v) where the model returns a value", out.pval))
 		return
-	case !out.panicked && mo.panics:
+	case !out.panicked && mo.panics && strict:
 		x.fail(ts, oi, op, "M-ref", "nopanic", "call returned normally where a panic is specified")
 		return
-	case out.panicked && mo.panics:
+	case out.panicked:
 		x.St.PanicOps++
 		x.observe(ts, oi, op, -1, -1)
 		return
 	}
-	if (out.err != nil) != mo.errs {
+	if (out.err != nil) != mo.errs && strict {
 		if mo.errs {
 			x.fail(ts, oi, op, "M-ref", "noerror", "call succeeded where the model rejects the input")
 		} else {
@@ -534,12 +631,17 @@ func (x *Env) step(ts *taskState, oi int, op *Op) {
 		}
 		return
 	}
-	if mo.errs {
+	if out.err != nil {
 		x.St.FailedOps++
 	}
 
 	// ---- caller memory: byte arguments unchanged over their whole capacity
+	// (C15 and C16; redundant with the trap in arena runs, the only check for
+	// heap inputs such as slices the library returned earlier)
 	for i, s := range bs {
+		if x.R.Prop != "C15" && x.R.Prop != "C16" {
+			break
+		}
 		if !bytes.Equal(s[:cap(s)], bcopies[i]) {
 			j := 0
 			full := s[:cap(s)]
@@ -555,6 +657,11 @@ func (x *Env) step(ts *taskState, oi int, op *Op) {
 		}
 	}
 
+	// ---- pointer arguments keep their value (C15): compared with their own
+	// pre-call state, not with the model
+	if x.R.Prop == "C15" && !x.argsKeptValue(ts, oi, op, ea, sa, argRaw) {
+		return
+	}
 	if post != nil {
 		post()
 		if x.abort {
@@ -620,7 +727,7 @@ func (x *Env) resyncScalar(ts *taskState, oi int, op *Op, r int) {
 	enc := ts.S[r].Encode()
 	x.yp()
 	v := new(big.Int).SetBytes(enc)
-	if len(enc) != 32 || v.Cmp(model.N) >= 0 {
+	if (len(enc) != 32 || v.Cmp(model.N) >= 0) && x.strict() {
 		x.fail(ts, oi, op, "M-ref", "noncanonical", fmt.Sprintf("scalar encodes to non-canonical %x", enc))
 		return
 	}
@@ -704,10 +811,25 @@ func (x *Env) afterRandom(ts *taskState, oi int, op *Op, rdStart int, out implOu
 		enc := ts.S[r].Encode()
 		x.yp()
 		got = new(big.Int).SetBytes(enc)
+		if x.R.Prop != "C18" {
+			// what Random must return is C18's statement; elsewhere the value is
+			// taken as it comes
+			ts.MS[r] = got
+			x.St.StateOps++
+			x.observe(ts, oi, op, r, 0)
+			return
+		}
 		if len(enc) != 32 || got.Cmp(model.N) >= 0 || got.Sign() == 0 {
 			x.fail(ts, oi, op, "M-entropy", "range", fmt.Sprintf("Random left the non-canonical or zero value %x", enc))
 			return
 		}
+	}
+	if x.R.Prop != "C18" {
+		x.St.PanicOps++
+		ts.MS[r] = nil
+		x.resyncScalar(ts, oi, op, r)
+		x.observe(ts, oi, op, -1, -1)
+		return
 	}
 	var next [][]byte
 	why := ""
@@ -807,11 +929,25 @@ func (x *Env) afterRandom(ts *taskState, oi int, op *Op, rdStart int, out implOu
 }
 
 func (x *Env) scribble(ts *taskState, oi int, op *Op) {
-	if len(ts.rets) == 0 {
+	n := len(ts.rets)
+	if n == 0 {
 		return
 	}
-	k := int(op.U % uint64(len(ts.rets)))
-	rt := ts.rets[k]
+	var rt *retained
+	for k := 0; k < n; k++ {
+		c := &ts.rets[(int(op.U%uint64(n))+k)%n]
+		if !c.input {
+			rt = c
+			break
+		}
+	}
+	if rt == nil {
+		return
+	}
+	rt.scribbled = true
+	if x.dry {
+		return // reference execution: same selection, no write
+	}
 	full := rt.b[:cap(rt.b)]
 	rg := prng.New(op.U ^ 0x5c71bb1e)
 	for i := range full {
@@ -837,9 +973,14 @@ func (x *Env) observe(ts *taskState, oi int, op *Op, recv int, recvIsE int) {
 				x.fail(ts, oi, op, "M-trap", site, "while observing the task's own variables: "+d)
 				return
 			}
-			x.fail(ts, oi, op, "M-ref", "observer-panic", fmt.Sprintf("an observer (Encode/Equal/IsIdentity/IsZero/...) panicked: %v", r))
+			if x.strict() {
+				x.fail(ts, oi, op, "M-ref", "observer-panic", fmt.Sprintf("an observer (Encode/Equal/IsIdentity/IsZero/...) panicked: %v", r))
+			} else {
+				ts.digest = append(ts.digest, 0xdead0b5e77e7)
+			}
 		}
 	}()
+	strict := x.strict()
 	var dg uint64 = 0xcbf29ce484222325
 	mixb := func(b []byte) {
 		for _, c := range b {
@@ -856,7 +997,7 @@ func (x *Env) observe(ts *taskState, oi int, op *Op, recv int, recvIsE int) {
 		x.yp()
 		want := model.EncodeCompressed(ts.ME[i])
 		mixb(got)
-		if !bytes.Equal(got, want) {
+		if strict && !bytes.Equal(got, want) {
 			mon, site := "M-ref", "encode"
 			if !(recvIsE == 1 && i == recv) {
 				mon, site = "M-others", "element"
@@ -873,7 +1014,8 @@ func (x *Env) observe(ts *taskState, oi int, op *Op, recv int, recvIsE int) {
 		}
 		id := ts.E[i].IsIdentity()
 		x.yp()
-		if id != ts.ME[i].IsInf() {
+		mixb([]byte{byte(b2i(id))})
+		if strict && id != ts.ME[i].IsInf() {
 			x.fail(ts, oi, op, "M-ref", "isidentity", fmt.Sprintf("element variable %d: IsIdentity = %v, model says %v", i, id, ts.ME[i].IsInf()))
 			return
 		}
@@ -885,15 +1027,15 @@ func (x *Env) observe(ts *taskState, oi int, op *Op, recv int, recvIsE int) {
 		if !x.R.ObsAll && !(recvIsE == 0 && i == recv) {
 			continue
 		}
-		if ts.MS[i] == nil {
-			continue
-		}
 		x.St.Observes++
 		got := ts.S[i].Encode()
 		x.yp()
+		if ts.MS[i] == nil {
+			ts.MS[i] = new(big.Int).SetBytes(got)
+		}
 		want := model.SEncode(ts.MS[i])
 		mixb(got)
-		if !bytes.Equal(got, want) {
+		if strict && !bytes.Equal(got, want) {
 			mon, site := "M-ref", "encode"
 			if !(recvIsE == 0 && i == recv) {
 				mon, site = "M-others", "scalar"
@@ -908,18 +1050,21 @@ func (x *Env) observe(ts *taskState, oi int, op *Op, recv int, recvIsE int) {
 		}
 		z := ts.S[i].IsZero()
 		x.yp()
-		if z != (ts.MS[i].Sign() == 0) {
+		mixb([]byte{byte(b2i(z))})
+		if strict && z != (ts.MS[i].Sign() == 0) {
 			x.fail(ts, oi, op, "M-ref", "iszero", fmt.Sprintf("scalar variable %d: IsZero = %v, model says %v", i, z, ts.MS[i].Sign() == 0))
 			return
 		}
 	}
+	var eqs []byte
 	if x.R.ObsAll {
 		for i := range ts.E {
 			for j := range ts.E {
 				want := b2i(ts.ME[i].Eq(ts.ME[j]))
 				got := ts.E[i].Equal(ts.E[j])
 				x.yp()
-				if got != want {
+				eqs = append(eqs, byte(got))
+				if strict && got != want {
 					x.fail(ts, oi, op, "M-ref", "equal", fmt.Sprintf("element %d Equal element %d = %d, model says %d", i, j, got, want))
 					return
 				}
@@ -930,19 +1075,20 @@ func (x *Env) observe(ts *taskState, oi int, op *Op, recv int, recvIsE int) {
 		}
 		for i := range ts.S {
 			for j := range ts.S {
-				if ts.MS[i] == nil || ts.MS[j] == nil {
-					continue
-				}
 				want := b2i(ts.MS[i].Cmp(ts.MS[j]) == 0)
 				got := ts.S[i].Equal(ts.S[j])
 				x.yp()
-				if got != want {
+				eqs = append(eqs, byte(got))
+				if strict && got != want {
 					x.fail(ts, oi, op, "M-ref", "equal", fmt.Sprintf("scalar %d Equal scalar %d = %d, model says %d", i, j, got, want))
 					return
 				}
 			}
 		}
 	}
+	mixb(eqs)
+	mixb(ts.extra)
+	ts.extra = ts.extra[:0]
 	if x.R.Returns && recv >= 0 {
 		if x.returns(ts, oi, op, recv, recvIsE == 1) {
 			return
@@ -958,6 +1104,13 @@ func (x *Env) observe(ts *taskState, oi int, op *Op, recv int, recvIsE int) {
 		return
 	}
 	ts.digest = append(ts.digest, dg)
+	if x.base != nil {
+		k := len(ts.digest) - 1
+		if k >= len(x.base) || x.base[k] != dg {
+			x.fail(ts, oi, op, "M-scribble", "observe", "observable state differs from the execution of the same history in which the caller never wrote into a returned slice: a returned buffer is shared with library state or with another result")
+			return
+		}
+	}
 	if x.phase == "concurrent" && x.solo != nil && ts.id >= 0 && ts.id < len(x.solo) && x.solo[ts.id] != nil {
 		k := len(ts.digest) - 1
 		if k < len(x.solo[ts.id]) && x.solo[ts.id][k] != dg {
@@ -1049,28 +1202,31 @@ func (x *Env) returns(ts *taskState, oi int, op *Op, r int, isE bool) bool {
 		e, m := ts.E[r], ts.ME[r]
 		u := e.EncodeUncompressed()
 		x.yp()
-		if !m.IsInf() && !bytes.Equal(u, model.EncodeUncompressed(m)) {
+		if x.strict() && !m.IsInf() && !bytes.Equal(u, model.EncodeUncompressed(m)) {
 			x.fail(ts, oi, op, "M-ref", "encodeuncompressed", fmt.Sprintf("EncodeUncompressed = %s, model says %s", hexOf(u), hexOf(model.EncodeUncompressed(m))))
 			return true
 		}
+		ts.extra = append(ts.extra, u...)
 		if x.retain(ts, oi, op, "Element.EncodeUncompressed", u) {
 			return true
 		}
 		xc := e.XCoordinate()
 		x.yp()
-		if !m.IsInf() && !bytes.Equal(xc, model.EncodeCompressed(m)[1:]) {
+		if x.strict() && !m.IsInf() && !bytes.Equal(xc, model.EncodeCompressed(m)[1:]) {
 			x.fail(ts, oi, op, "M-ref", "xcoordinate", fmt.Sprintf("XCoordinate = %x", xc))
 			return true
 		}
+		ts.extra = append(ts.extra, xc...)
 		if x.retain(ts, oi, op, "Element.XCoordinate", xc) {
 			return true
 		}
 		mb, err := e.MarshalBinary()
 		x.yp()
-		if err != nil || !bytes.Equal(mb, model.EncodeCompressed(m)) {
+		if x.strict() && (err != nil || !bytes.Equal(mb, model.EncodeCompressed(m))) {
 			x.fail(ts, oi, op, "M-ref", "marshalbinary", fmt.Sprintf("MarshalBinary = %x, %v", mb, err))
 			return true
 		}
+		ts.extra = append(ts.extra, mb...)
 		if x.retain(ts, oi, op, "Element.MarshalBinary", mb) {
 			return true
 		}
@@ -1078,20 +1234,22 @@ func (x *Env) returns(ts *taskState, oi int, op *Op, r int, isE bool) bool {
 		s, m := ts.S[r], ts.MS[r]
 		mb, err := s.MarshalBinary()
 		x.yp()
-		if err != nil || !bytes.Equal(mb, model.SEncode(m)) {
+		if x.strict() && (err != nil || !bytes.Equal(mb, model.SEncode(m))) {
 			x.fail(ts, oi, op, "M-ref", "marshalbinary", fmt.Sprintf("MarshalBinary = %x, %v", mb, err))
 			return true
 		}
+		ts.extra = append(ts.extra, mb...)
 		if x.retain(ts, oi, op, "Scalar.MarshalBinary", mb) {
 			return true
 		}
 	}
 	o := secp.Order()
 	x.yp()
-	if !bytes.Equal(o, model.SEncode(model.N)[:]) {
+	if x.strict() && !bytes.Equal(o, model.SEncode(model.N)[:]) {
 		x.fail(ts, oi, op, "M-ref", "order", fmt.Sprintf("Order() = %x", o))
 		return true
 	}
+	ts.extra = append(ts.extra, o...)
 	return x.retain(ts, oi, op, "Order", o)
 }
 
@@ -1322,6 +1480,27 @@ func Exec(run *Run, ar *arena.Arena, g *Globals, sites *SiteTable) (res Result) 
 
 	if !concurrent {
 		x.phase = "single"
+		hasScribble := false
+		if len(run.Tasks) == 1 {
+			for _, o := range run.Tasks[0] {
+				if o.K == "scribble" {
+					hasScribble = true
+				}
+			}
+		}
+		if run.Prop == "C15" && hasScribble && len(run.Setup) == 0 {
+			// reference execution without caller writes, then the real one
+			x.dry = true
+			ref := x.newTask(0, run.NE, run.NS)
+			x.runTask(ref, run.Tasks[0])
+			x.dry = false
+			if x.abort {
+				return x.finish()
+			}
+			x.base = ref.digest
+			x.all = nil
+			newDev()
+		}
 		var ts *taskState
 		if len(run.Setup) > 0 {
 			ts = setup
@@ -1331,6 +1510,9 @@ func Exec(run *Run, ar *arena.Arena, g *Globals, sites *SiteTable) (res Result) 
 		}
 		if len(run.Tasks) == 1 {
 			x.runTask(ts, run.Tasks[0])
+		}
+		if x.base != nil && !x.abort && len(ts.digest) != len(x.base) {
+			x.fail(ts, len(run.Tasks[0])-1, nil, "M-scribble", "length", "the execution with caller writes made a different number of observations than the reference execution")
 		}
 		return x.finish()
 	}
@@ -1430,6 +1612,49 @@ func Exec(run *Run, ar *arena.Arena, g *Globals, sites *SiteTable) (res Result) 
 	}
 	if s.SpawnedN > 0 {
 		x.St.Probes["library_spawned_goroutines"] += uint64(s.SpawnedN)
+	}
+	// ---- tasks that drew entropy: "what it would return if run alone" is
+	// decided by re-running each of them alone on exactly the reads (bytes,
+	// chunking, failures) it was served in the concurrent run
+	if x.viol == nil && x.incon == nil && !x.poisoned {
+		x.phase = "solo-playback"
+		x.Sch = nil
+		var n uint64
+		secp.VerifSetYieldHook(func(uint32) { n++ })
+		concLog := x.Dev.Log
+		for ti := range run.Tasks {
+			if !hasRandom[ti] || x.abort {
+				continue
+			}
+			var pb []entropy.Rec
+			for _, rec := range concLog {
+				if rec.Task == ti {
+					pb = append(pb, rec)
+				}
+			}
+			if pb == nil {
+				pb = []entropy.Rec{}
+			}
+			x.rq = nil
+			x.Dev = entropy.NewDevice(entropy.Script{Playback: pb})
+			x.Dev.Cur = func() int { return ti }
+			crand.Reader = x.Dev
+			alone := x.newTask(ti, run.NE, run.NS)
+			x.runTask(alone, run.Tasks[ti])
+			if x.abort {
+				break
+			}
+			conc := states[ti].digest
+			for k := 0; k < len(conc) || k < len(alone.digest); k++ {
+				if k >= len(conc) || k >= len(alone.digest) || conc[k] != alone.digest[k] {
+					oi := min(k, len(run.Tasks[ti])-1)
+					x.fail(states[ti], oi, &run.Tasks[ti][oi], "M-solo", "observe", "observable state after this call differs from the same task run alone on the same entropy reads")
+					break
+				}
+			}
+			x.St.Probes["random_task_replayed_alone"]++
+		}
+		secp.VerifSetYieldHook(nil)
 	}
 	// schedule signature: sequence of (from,to,site) of in-op switches
 	var sh uint64 = 0xcbf29ce484222325
